@@ -158,6 +158,10 @@ func init() {
 			in.ts.noPromote = true
 			return nil
 		},
+		"zzvAbstractMulDiv": func(in *Interp, a []Value) Value {
+			in.p.absFP = true
+			return nil
+		},
 		"zzvHintInt": func(in *Interp, a []Value) Value {
 			// candidate for the proven decode(encode(x)) simplification (sound: only used after a proof)
 			if t := a[0].(*Term); !t.IsConst() {
@@ -477,4 +481,101 @@ func (in *Interp) reach(v Value, seen map[interface{}]bool) {
 			seen[x.c] = true
 		}
 	}
+}
+
+// ---------- sign/magnitude abstraction of float64 products and quotients ----------
+//
+// With zzvAbstractMulDiv() a float64 product or quotient of TWO SYMBOLIC operands is not bit-blasted
+// (no available solver decides chains of them, DESIGN §2 probes C″/D) but replaced by an application of
+// an uninterpreted function constrained by facts that hold for every IEEE-754 round-to-nearest
+// product / quotient (sign rules, zero rules, NaN propagation, |x*y| <= |x| for |y| <= 1,
+// |x/y| <= 1 for |x| <= |y|, x/x == 1, weak monotonicity in one operand when the other is shared and
+// positive). Every real execution is therefore one model of the abstraction: an obligation proven
+// under it holds for the real arithmetic (over-approximation, sound for proofs). A counterexample may
+// be spurious; it is only reported after it replays natively, where the real operations run.
+const absMulName, absDivName = "abs.mul", "abs.div"
+
+func init() {
+	stubDoc["abstract float64 mul/div"] = "float64 product/quotient of two symbolic operands replaced by an uninterpreted function constrained by IEEE-valid sign, zero, NaN, magnitude and monotonicity facts (over-approximation: proofs are sound, counterexamples must replay natively)"
+}
+
+func (in *Interp) absMulDiv(mul bool, a, b *Term) *Term {
+	ts := in.ts
+	p := in.p
+	zero := ts.F64C(0)
+	one := ts.F64C(1)
+	inf := ts.F64C(math.Inf(1))
+	fin := func(x *Term) *Term { return ts.And(ts.FLt(ts.FNeg(inf), x), ts.FLt(x, inf)) }
+	pos := func(x *Term) *Term { return ts.FLt(zero, x) }
+	neg := func(x *Term) *Term { return ts.FLt(x, zero) }
+	isz := func(x *Term) *Term { return ts.FEq(x, zero) }
+	abs := func(x *Term) *Term { return ts.funary(OpFAbs, x) }
+	notNaN := func(x *Term) *Term { return ts.Not(ts.FIsNaN(x)) }
+	ax := func(c *Term) { p.Assume(c) }
+	if !in.initing {
+		in.usedStub("abstract float64 mul/div")
+	}
+	if mul {
+		if a.id > b.id {
+			a, b = b, a
+		}
+		r := ts.UF(absMulName, SF64, a, b)
+		for _, o := range p.absApps {
+			if o == r {
+				return r
+			}
+		}
+		same := ts.Or(ts.And(pos(a), pos(b)), ts.And(neg(a), neg(b)))
+		diff := ts.Or(ts.And(pos(a), neg(b)), ts.And(neg(a), pos(b)))
+		ax(ts.Implies(same, ts.And(notNaN(r), ts.FLe(zero, r))))
+		ax(ts.Implies(diff, ts.And(notNaN(r), ts.FLe(r, zero))))
+		ax(ts.Implies(ts.Or(ts.And(isz(a), fin(b)), ts.And(isz(b), fin(a))), isz(r)))
+		ax(ts.Implies(ts.Or(ts.FIsNaN(a), ts.FIsNaN(b)), ts.FIsNaN(r)))
+		ax(ts.Implies(ts.And(fin(a), ts.FLe(abs(b), one)), ts.FLe(abs(r), abs(a))))
+		ax(ts.Implies(ts.And(fin(b), ts.FLe(abs(a), one)), ts.FLe(abs(r), abs(b))))
+		// weak monotonicity against earlier products sharing an operand
+		for _, o := range p.absApps {
+			if o.name != absMulName {
+				continue
+			}
+			for _, sh := range [][4]*Term{{a, b, o.args[0], o.args[1]}, {a, b, o.args[1], o.args[0]}, {b, a, o.args[0], o.args[1]}, {b, a, o.args[1], o.args[0]}} {
+				if sh[0] == sh[2] { // shared operand c = sh[0]; x = sh[1] (new), y = sh[3] (old)
+					c, x, y := sh[0], sh[1], sh[3]
+					ax(ts.Implies(ts.And(ts.And(pos(c), fin(c)), ts.And(ts.FLe(x, y), ts.And(fin(x), fin(y)))), ts.FLe(r, o)))
+					ax(ts.Implies(ts.And(ts.And(pos(c), fin(c)), ts.And(ts.FLe(y, x), ts.And(fin(x), fin(y)))), ts.FLe(o, r)))
+				}
+			}
+		}
+		p.absApps = append(p.absApps, r)
+		return r
+	}
+	r := ts.UF(absDivName, SF64, a, b)
+	for _, o := range p.absApps {
+		if o == r {
+			return r
+		}
+	}
+	okInf := ts.Or(fin(a), fin(b)) // Inf/Inf is NaN
+	same := ts.And(okInf, ts.Or(ts.And(pos(a), pos(b)), ts.And(neg(a), neg(b))))
+	diff := ts.And(okInf, ts.Or(ts.And(pos(a), neg(b)), ts.And(neg(a), pos(b))))
+	ax(ts.Implies(same, ts.And(notNaN(r), ts.FLe(zero, r))))
+	ax(ts.Implies(diff, ts.And(notNaN(r), ts.FLe(r, zero))))
+	ax(ts.Implies(ts.And(isz(a), ts.And(notNaN(b), ts.Not(isz(b)))), isz(r)))
+	ax(ts.Implies(ts.Or(ts.FIsNaN(a), ts.FIsNaN(b)), ts.FIsNaN(r)))
+	nzfin := ts.And(fin(a), ts.And(fin(b), ts.Not(isz(b))))
+	ax(ts.Implies(ts.And(nzfin, ts.FLe(abs(a), abs(b))), ts.FLe(abs(r), one)))
+	ax(ts.Implies(ts.And(nzfin, ts.FLe(abs(b), abs(a))), ts.FLe(one, abs(r))))
+	ax(ts.Implies(ts.And(nzfin, ts.FEq(a, b)), ts.FEq(r, one)))
+	// weak monotonicity in the numerator for a shared positive denominator
+	for _, o := range p.absApps {
+		if o.name != absDivName || o.args[1] != b {
+			continue
+		}
+		x, y := a, o.args[0]
+		g := ts.And(ts.And(pos(b), fin(b)), ts.And(fin(x), fin(y)))
+		ax(ts.Implies(ts.And(g, ts.FLe(x, y)), ts.FLe(r, o)))
+		ax(ts.Implies(ts.And(g, ts.FLe(y, x)), ts.FLe(o, r)))
+	}
+	p.absApps = append(p.absApps, r)
+	return r
 }
